@@ -22,6 +22,10 @@ Definition G (p : nat) : op := Get p.
 Definition A (f : list nat) : op := Artifact f.
 (* one unlocked ModelVersion() read by a client: (invocation stamp, response stamp, value) *)
 Definition V (i j : nat) (v : N) : nat * nat * N := (i, j, v).
+(* a retained response: (what it decoded to at response time, what the SAME retained object -- the artifact value,
+   the byte slice returned by ParameterData -- decodes to when it is read again later: at the end of the window,
+   after the updates of later windows, or by a slow consumer while updates are running) *)
+Definition L (at_response later : resp) : resp * resp := (at_response, later).
 
 Inductive case :=
 (* concurrent window: [init]/[ver] = parameter values / model version at the quiescent point before the window,
@@ -29,8 +33,10 @@ Inductive case :=
    [vreads] = ModelVersion() reads issued by the clients during the window *)
 | CHist (nthreads : nat) (init : list N) (ver : N) (calls : list call)
         (final : list N) (ver_after : N) (vreads : list (nat * nat * N))
+        (late : list (resp * resp))      (* retained responses read again later *)
+        (overlaps : N)                   (* times a second client entered a node's Process while another was inside *)
 (* single-threaded script: [calls] in program order *)
-| CSeq (init : list N) (ver : N) (calls : list call) (final : list N) (ver_after : N).
+| CSeq (init : list N) (ver : N) (calls : list call) (final : list N) (ver_after : N) (late : list (resp * resp)).
 
 Definition is_update (o : op) : bool := match o with Update _ _ | BadUpdate _ => true | _ => false end.
 Definition count_if (f : call -> bool) (l : list call) : N := N.of_nat (List.length (filter f l)).
@@ -60,26 +66,33 @@ Fixpoint legalb (s : state) (l : list call) : bool :=
   | x :: r => resp_eqb (snd (seq_step s (c_op x))) (c_resp x) && legalb (fst (seq_step s (c_op x))) r
   end.
 
+(* responses are VALUES: in the model a response is a Coq value fixed at the call's linearization point
+   (LockSemProofs.responses_are_values); the implementation must return objects that keep showing that value *)
+Definition values_ok (late : list (resp * resp)) : bool := forallb (fun p => resp_eqb (fst p) (snd p)) late.
+
 (* the property on the implementation's output: the window is linearizable (which is exactly "every artifact is
    one snapshot, not older than any update completed before its invocation"), the model version counts every
-   update exactly once, version reads are plausible *)
+   update exactly once, version reads are plausible, retained responses never change, node evaluation is exclusive *)
 Definition prop_ok (c : case) : bool :=
   match c with
-  | CHist _ init ver calls _ ver_after vreads =>
+  | CHist _ init ver calls _ ver_after vreads late overlaps =>
       stamps_ok calls && linb (state_of init ver) calls
       && N.eqb ver_after (ver + count_if (fun x => is_update (c_op x)) calls)
       && forallb (vread_ok ver calls) vreads
-  | CSeq init ver calls _ ver_after =>
+      && values_ok late
+      && N.eqb overlaps 0          (* mutex_invariant observed on the implementation: node evaluation is exclusive *)
+  | CSeq init ver calls _ ver_after late =>
       stamps_ok calls && linb (state_of init ver) calls
       && N.eqb ver_after (ver + count_if (fun x => is_update (c_op x)) calls)
+      && values_ok late
   end.
 
 (* model vs implementation: the model predicts the responses AND the state the window leaves behind *)
 Definition corr_ok (c : case) : bool :=
   match c with
-  | CHist _ init ver calls final _ _ =>
+  | CHist _ init ver calls final _ _ _ _ =>
       linb (state_of init ver) (calls ++ final_reads calls final)
-  | CSeq init ver calls final ver_after =>
+  | CSeq init ver calls final ver_after _ =>
       legalb (state_of init ver) (calls ++ final_reads calls final)
       && N.eqb ver_after (st_ver (run_calls (state_of init ver) calls))
   end.
